@@ -2,6 +2,7 @@
    Property theorems only; proofs live in MemProofs.v (memory) and MachineProofs.v (cycle). *)
 From HclV Require Import Base Expr Machine MemSpec MemProofs.
 From Coq Require Import Sorted.
+From HclV Require HistorySpec HistoryProofs.
 Open Scope N_scope.
 
 (* the sorted-list representation behaves as a map and keeps its invariant *)
@@ -73,3 +74,11 @@ Example C05_wrap :
   (mem_read m (two64 - 3) 8, byte_at m 0, byte_at m 4, byte_at m 5, byte_at m (two64 - 1)) =
   (mkV 0x1122334455667788 (Bits 64), 0x55, 0x11, 7, 0x66).
 Proof. vm_compute. reflexivity. Qed.
+
+(* ---- over whole runs of an accepted program (HistorySpec.v / HistoryProofs.v): memory after i
+   cycles = the image with the writes of cycles < i applied in order (latest write to each byte
+   wins); every data / instruction read of cycle i returns the bytes as they were at the start of
+   cycle i - the most recent EARLIER write to each byte, else the loaded image - or 0 when disabled *)
+Theorem C05_memory_history : HistorySpec.stmt_memory_history.
+Proof. exact HistoryProofs.memory_history_holds. Qed.
+Print Assumptions C05_memory_history.
